@@ -222,7 +222,12 @@ func (r *hcRun) apply(st Step) error {
 
 // recovered: a copy of the durable state as it is now, opened and loaded
 func (r *hcRun) recovered() (log []int, view []int, err error) {
-	q := r.pa.CloneDurable(r.pa.EffectCount())
+	return r.recoveredAt(r.pa.EffectCount())
+}
+
+// recoveredAt: the same for the durable state as it was after the first n persistence effects of the peer
+func (r *hcRun) recoveredAt(n int) (log []int, view []int, err error) {
+	q := r.pa.CloneDurable(n)
 	node, err := q.Start("")
 	if err != nil {
 		return nil, nil, fmt.Errorf("start: %w", err)
@@ -255,6 +260,8 @@ func (r *hcRun) run(b Behaviour, idx int) {
 		}
 	}()
 	r.res.Behaviours++
+	prevAcked := []int{}
+	prevEffects := r.pa.EffectCount()
 	for si, st := range b.Steps {
 		r.step = si
 		mark("%s step %d %s%v", b.ID, si, st.Action, st.Args)
@@ -304,6 +311,24 @@ func (r *hcRun) run(b Behaviour, idx int) {
 				r.violate("view-differs", fmt.Sprintf("after %s%v the log holds %v and the view shows the keys of %v", st.Action, st.Args, got, view), got, view)
 			}
 		}
+		// C05: the process crashed between two persistence effects of this step (block writes, cache puts): what had
+		// been acknowledged before the step is still recovered
+		for n := prevEffects + 1; n < r.pa.EffectCount(); n++ {
+			clog, _, err := r.recoveredAt(n)
+			if err != nil {
+				r.violate("recover-error", fmt.Sprintf("during %s%v, after persistence effect %d, a copy of the durable state could not be opened and loaded: %v", st.Action, st.Args, n, err), nil, nil)
+				return
+			}
+			r.res.Stats["crash_points"]++
+			for _, id := range prevAcked {
+				if !contains(clog, id) {
+					r.violate("lost-ack", fmt.Sprintf("a crash during %s%v (after persistence effect %d; history: %s) loses entry %d, acknowledged before that step: recovered %v", st.Action, st.Args, n, briefSteps(b.Steps[:si+1]), id, clog), prevAcked, clog)
+					break
+				}
+			}
+		}
+		prevEffects = r.pa.EffectCount()
+		prevAcked = acked
 		// C05: stopped at this instant, reopened from the same directory and loaded
 		rlog, rview, err := r.recovered()
 		if err != nil {
